@@ -395,7 +395,7 @@ func TestDialRealUpgrader(t *testing.T) {
 			default:
 				result = "refused:other"
 			}
-			if anyGenuine && !anyForeign && common && conn == nil {
+			if anyGenuine && !anyForeign && common && conn == nil && !noConverse {
 				rt.Fatalf("%s: the genuine peer answered but the dial failed: %v", cx, err)
 			}
 			// the connection on which Q answered must have been closed by the dialer
